@@ -16,17 +16,17 @@ func init() {
 			r.Rule("R10.5c", 6, "construction overlapping Close: insertions into tables that Close resets are re-checked inside the critical section (typestate)")
 			r.Rule("R10.6", 2, "fan-out loops hand every output of a multi-output constructor to setInstance")
 			r.Rule("R02.3", 5, "every success exit of createInstance has passed setInstance")
-			ruleTracking(w, r, "R10.1", "", "")
-			ruleSingleList(w, r, "R10.1s")
-			ruleDrainComplete(w, r, "R10.2", la)
-			ruleGate(w, r, "R10.3")
-			ruleSwap(w, r, "R10.3s", la)
-			ruleWhoCloses(w, r, "R10.4")
-			ruleBuildCleanup(w, r, "R10.5a")
-			ruleCancelOwnership(w, r, "R10.5b")
-			checkTypestateAs(w, r, la, "R10.5c")
-			ruleFanOut(w, r, "R10.6")
-			ruleCreateStores(w, r, "R02.3")
+			r.Try(func() { ruleTracking(w, r, "R10.1", "", "") })
+			r.Try(func() { ruleSingleList(w, r, "R10.1s") })
+			r.Try(func() { ruleDrainComplete(w, r, "R10.2", la) })
+			r.Try(func() { ruleGate(w, r, "R10.3") })
+			r.Try(func() { ruleSwap(w, r, "R10.3s", la) })
+			r.Try(func() { ruleWhoCloses(w, r, "R10.4") })
+			r.Try(func() { ruleBuildCleanup(w, r, "R10.5a") })
+			r.Try(func() { ruleCancelOwnership(w, r, "R10.5b") })
+			r.Try(func() { checkTypestateAs(w, r, la, "R10.5c") })
+			r.Try(func() { ruleFanOut(w, r, "R10.6") })
+			r.Try(func() { ruleCreateStores(w, r, "R02.3") })
 		})
 
 	register("C11",
@@ -39,14 +39,14 @@ func init() {
 			r.Rule("R11.3", 3, "children (resp. scopes and the root scope) are closed before the owner's own instances")
 			r.Rule("R11.3c", 2, "the cascade closes every element of a snapshot of the table, sequentially")
 			r.Rule("R11.5", 1, "eager singleton creation walks the topological order front to back and constructs inside that loop")
-			ruleReverse(w, r, "R11.1")
-			ruleListsAppendOnly(w, r, "R11.2", la)
-			ruleSingleList(w, r, "R11.2s")
-			ruleCloseOrder(w, r, "R11.3")
-			ruleCascade(w, r, "R11.3c")
-			ruleSortedCreation(w, r, "R11.5")
+			r.Try(func() { ruleReverse(w, r, "R11.1") })
+			r.Try(func() { ruleListsAppendOnly(w, r, "R11.2", la) })
+			r.Try(func() { ruleSingleList(w, r, "R11.2s") })
+			r.Try(func() { ruleCloseOrder(w, r, "R11.3") })
+			r.Try(func() { ruleCascade(w, r, "R11.3c") })
+			r.Try(func() { ruleSortedCreation(w, r, "R11.5") })
 			r.Rule("R11.6", 1, "a list whose snapshot Close takes by plain copy is never compacted or overwritten in place")
-			ruleSnapshotFieldsNotMutatedInPlace(w, r, "R11.6", la)
+			r.Try(func() { ruleSnapshotFieldsNotMutatedInPlace(w, r, "R11.6", la) })
 		})
 
 	register("C12",
@@ -58,11 +58,15 @@ func init() {
 			r.Rule("R12.2p", 4, "past the gate every path completes the cascade and the disposal loop")
 			r.Rule("R12.3", 2, "DisposalError iff accumulator non-empty")
 			r.Rule("R12.5", 2, "context-cancellation watchers call the gated Close of the scope they were created for")
-			ruleGate(w, r, "R12.1")
-			ruleErrorsAccumulate(w, r, "R12.2", "R12.3")
-			ruleDrainComplete(w, r, "R12.2p", la)
-			ruleCascade(w, r, "R12.2p")
-			ruleWatcher(w, r, "R12.5")
+			r.Try(func() { ruleGate(w, r, "R12.1") })
+			r.Try(func() { ruleErrorsAccumulate(w, r, "R12.2", "R12.3") })
+			r.Try(func() { ruleDrainComplete(w, r, "R12.2p", la) })
+			r.Try(func() { ruleCascade(w, r, "R12.2p") })
+			r.Try(func() { ruleWatcher(w, r, "R12.5") })
+			r.Rule("R12.6", 5, "'every instance it owns': a Disposable instance is appended to its owner's list (or closed on the spot) on every path of setInstance/setSingleton - what is not in the list is never attempted")
+			r.Try(func() { ruleTracking(w, r, "R12.6", "", "") })
+			r.Rule("R12.7", 3, "Close closes owned scopes itself, synchronously: a scope's context is cancelled only by that scope's own Close, so no Close hands an owned scope to the asynchronous watcher whose result nobody receives")
+			r.Try(func() { ruleCancelOwnership(w, r, "R12.7") })
 		})
 
 	register("C13",
@@ -76,13 +80,13 @@ func init() {
 			r.Rule("R13.3s", 4, "a table's snapshot and its reset happen inside one critical section")
 			r.Rule("R13.3b", 5, "a scope that arrives after its owner was closed is closed, not handed out or leaked")
 			r.Rule("R13.4", 2, "one watcher per CreateScope, on this context, closing this scope")
-			ruleEntry(w, r, "R13.1")
-			ruleCascade(w, r, "R13.2")
-			ruleGate(w, r, "R13.2g")
-			checkTypestateAs(w, r, la, "R13.3")
-			ruleSwap(w, r, "R13.3s", la)
-			ruleCancelOwnership(w, r, "R13.3b")
-			ruleWatcher(w, r, "R13.4")
+			r.Try(func() { ruleEntry(w, r, "R13.1") })
+			r.Try(func() { ruleCascade(w, r, "R13.2") })
+			r.Try(func() { ruleGate(w, r, "R13.2g") })
+			r.Try(func() { checkTypestateAs(w, r, la, "R13.3") })
+			r.Try(func() { ruleSwap(w, r, "R13.3s", la) })
+			r.Try(func() { ruleCancelOwnership(w, r, "R13.3b") })
+			r.Try(func() { ruleWatcher(w, r, "R13.4") })
 		})
 
 	register("C14",
@@ -96,11 +100,11 @@ func init() {
 			r.Rule("R14.5", 5, "ownership of cancel")
 			r.Rule("R14.6", 2, "watcher blocks only on this context's Done()")
 			r.Rule("R14.g", 2, "R-GATE (the release sequence runs exactly once)")
-			ruleRelease(w, r, "R14.1", "R14.2", "R14.4")
-			ruleTablePairing(w, r, "R14.3", la)
-			ruleCancelOwnership(w, r, "R14.5")
-			ruleWatcher(w, r, "R14.6")
-			ruleGate(w, r, "R14.g")
+			r.Try(func() { ruleRelease(w, r, "R14.1", "R14.2", "R14.4") })
+			r.Try(func() { ruleTablePairing(w, r, "R14.3", la) })
+			r.Try(func() { ruleCancelOwnership(w, r, "R14.5") })
+			r.Try(func() { ruleWatcher(w, r, "R14.6") })
+			r.Try(func() { ruleGate(w, r, "R14.g") })
 		})
 }
 
